@@ -85,7 +85,7 @@ func fieldVals(rr dns.RR, steps []textStep) (string, bool) {
 		switch s.Kind {
 		case "uint", "uintalg", "uintttl":
 			out = append(out, fmt.Sprintf("n:%d", fv.Uint()))
-		case "name", "endstr", "tok":
+		case "name", "endstr", "tok", "octet", "tokstr":
 			out = append(out, "s:"+hexOrDash([]byte(fv.String())))
 		case "txt":
 			var parts []string
